@@ -56,7 +56,7 @@ impl Prop for C15 {
         }
     }
     fn required_probes(&self, tier: Tier) -> Vec<&'static str> {
-        let mut v = vec!["gap_sum_over_u32", "non_monotonic_timestamps", "tie_for_biggest_value", "tie_for_biggest_size", "coinbase_above_subsidy", "coinbase_below_subsidy", "height_around_halving", "sub_range", "coinbase_shaped_tx_not_first", "block_without_transactions_inside_range", "chain_longer_than_2_pow_18_blocks"];
+        let mut v = vec!["gap_sum_over_u32", "non_monotonic_timestamps", "tie_for_biggest_value", "tie_for_biggest_size", "coinbase_above_subsidy", "coinbase_below_subsidy", "height_around_halving", "sub_range", "coinbase_shaped_tx_not_first", "block_without_transactions_inside_range", "chain_longer_than_2_pow_18_blocks", "near_tie_for_biggest_size"];
         if tier == Tier::Thorough {
             v.push("block_size_sum_over_u32");
         }
@@ -87,9 +87,15 @@ impl Prop for C15 {
             // hundreds of thousands of samples
             scn.family = "long-chain".into();
             let n = (1usize << 18) + rng.usize(1, 4095);
+            // an index segment that crosses two halving heights (210 000 and 420 000) in one run
+            let base0 = 209_000u64 + rng.below(990);
+            scn.base_height = base0;
             let mut ts: u32 = 1_231_006_505;
             for i in 0..n {
-                let mut b = marker_block(i as u64, 0, rng);
+                let hh = base0 + i as u64;
+                let mut b = marker_block(hh, 0, rng);
+                // every coinbase pays a little more than the subsidy of its height
+                b.txs[0].outputs[0].value = ((50u64 * 100_000_000) >> (hh / 210_000)) + 1 + (hh % 7);
                 ts = ts.saturating_add(rng.range(1, 1200) as u32);
                 b.time = ts;
                 // block sizes vary so that a dropped tail shows in the mean
@@ -101,6 +107,7 @@ impl Prop for C15 {
             scn.index.storage = "flush".into();
             let mut r = RunSpec::new("simplestats");
             r.threads = 4;
+            r.start = Some(base0);
             scn.runs = vec![r];
             h.stats.probe("chain_longer_than_2_pow_18_blocks");
             h.check(&mut scn)?;
@@ -118,6 +125,11 @@ impl Prop for C15 {
         let kinds = if kinds.is_empty() { vec![0] } else { kinds };
         let tie_value = rng.chance(1, 3);
         let tie_size = rng.chance(1, 3);
+        // sizes that beat each other by a byte or two, made of many long scripts (each 253+ byte script has a
+        // 3-byte length prefix: size estimates that assume 1 byte are off by 2 per script)
+        let near_tie_size = !tie_size && rng.chance(1, 5);
+        let mut near_len = 0usize;
+        let near_k = rng.usize(9, 24);
         let big_gaps = rng.chance(1, 3);
         let empty_blocks = nb >= 3 && rng.chance(1, 8);
         let mut ts: u32 = 1_300_000_000;
@@ -149,6 +161,29 @@ impl Prop for C15 {
                 locktime: 0,
                 cs_width: 0,
             });
+            if near_tie_size {
+                for _ in 0..rng.usize(1, 3) {
+                    let k = near_k;
+                    near_len += rng.usize(1, 3);
+                    let bump = near_len;
+                    txs.push(TxDesc {
+                        version: 2,
+                        segwit: false,
+                        inputs: (0..k)
+                            .map(|j| InDesc {
+                                prev_txid: Bytes(rng.bytes(32)),
+                                prev_index: 0,
+                                script_sig: Bytes(vec![9u8; if j == 0 { 300 + bump } else { 253 }]),
+                                sequence: 0xffff_ffff,
+                                witness: vec![],
+                            })
+                            .collect(),
+                        outputs: vec![OutDesc { value: 1_000, script: Bytes(p2pkh(&rng.bytes(20))) }],
+                        locktime: 0,
+                        cs_width: 0,
+                    });
+                }
+            }
             for _ in 0..rng.usize(0, 4) {
                 let n_in = rng.usize(1, 3);
                 let n_out = rng.usize(1, 4);
@@ -330,6 +365,9 @@ impl Prop for C15 {
             }
             if sizes.iter().filter(|x| **x == ex.biggest_size.0).count() >= 2 {
                 st.probe("tie_for_biggest_size");
+            }
+            if sizes.iter().any(|x| *x < ex.biggest_size.0 && *x + 4 > ex.biggest_size.0) {
+                st.probe("near_tie_for_biggest_size");
             }
             if !o.exit.ok() {
                 v.push(viol("C15/run-failed", format!("simplestats on range {}..{} failed: exit {:?}: {}", s, e, o.exit, super::c01::tail(&o.stderr_str()))));
